@@ -18,7 +18,7 @@ theorem step_rel_joined (s s' : Sys) (a i : Nat) (t : Rat) (h : s' ∈ step s (.
     · cases h
     · have r1 : SRel t (fun j => j = a) (fun _ => False) s
           ({ s with clock := t, acts := upd s.acts a { (s.acts a) with inJoin := none } } : Sys) :=
-        ⟨rfl, astep_upd _ a _ (AStep.mk' rfl rfl rfl (Or.inl rfl) (Or.inl ⟨rfl, rfl⟩) (Or.inr rfl) id)⟩
+        ⟨rfl, astep_upd _ a _ (AStep.mk' rfl rfl rfl (Or.inl rfl) (fun hs => Or.inl ⟨hs, rfl⟩) (Or.inr rfl) id)⟩
       exact settle_compose r1 rfl h
 
 /-- from the record `x0` handed to `runCallback` (dying) to the result -/
